@@ -58,6 +58,28 @@ def contract_grid(ctx, st):
                         replay={"contract_function": name, "guardian_count": n, "signature_count": k, "node_quorum": q, "row": it, "note": det}, key="contract-verify:" + src)
 
 
+def node_published(ctx):
+    """"a VAA the node considers complete is accepted on chain": every VAA the real processor handlers publish in the processor harness's histories is judged
+    by the harness with the contracts' acceptance rule (at least floor(2n/3)+1 signature records, strictly ascending guardian indices, each recovering the key at
+    its index over keccak(keccak(body)) — the rule the theorems C07_*_accepts_iff prove for both translated contract functions)"""
+    rc, out, trace = core.harness_pkg(ctx, "processor", "^TestVerifProc$", timeout=1800)
+    rows = [r for r in core.read_jsonl(trace) if r.get("k") == "hist"]
+    if rc != 0 or not rows:
+        ctx.problem("correspondence", "go harness C07 (VAAs published by the processor)", out[-1500:])
+        return
+    npub = sum(1 for h in rows for stp in h.get("steps", []) for o in stp.get("outs", []) if o.startswith("sendvaa ") or o.startswith("store "))
+    ctx.cov["processor_histories_for_published_vaas"] = len(rows)
+    ctx.cov["published_or_stored_vaas_judged"] = npub
+    for h in rows:
+        for line in h.get("mon") or []:
+            if line.startswith("C01: locally assembled VAA") and "valid quorum" in line:
+                ctx.problem("monitor", "a VAA the node considered complete and published would be rejected on chain (both contracts ask for at least floor(2n/3)+1 signature records "
+                            "with strictly ascending guardian indices, each recovering the key at its index): " + line,
+                            "observed on the real handlers, history %s (%s)" % (h["id"], h.get("shape")), concrete=True,
+                            replay={"history": h["id"], "shape": h.get("shape"), "ops": h["ops"], "monitor": line}, key="node-published:not-acceptable")
+                return
+
+
 def run(ctx):
     st = core.run_extract(ctx, ["quorum_go", "quorum_sol", "quorum_ral", "sol_verifyvm", "ral_parse_and_verify"])
     proved = core.coq_prove(ctx, "C07")
@@ -109,6 +131,7 @@ def run(ctx):
     ctx.cov["traces_validated_against_impl"] = len(rows)
     ctx.cov["mismatches"] = len(bad)
     contract_grid(ctx, st)
+    node_published(ctx)
     # the explorer's own threshold (explorer-backend/processor verifyVAA, an anchor of this property): decided on real signatures for
     # set sizes n and counts floor(2n/3) / floor(2n/3)+1
     rcx, outx, tracex = core.harness_pkg(ctx, "explorer_processor", "^TestVerifC07Explorer$")
